@@ -132,6 +132,7 @@ pub fn range_bounds(case: &Case) -> (usize, usize) {
     (s, e)
 }
 
+#[macro_export]
 macro_rules! with_array {
     ($n:expr, $mk:expr, |$a:ident| $body:expr) => {
         match $n {
